@@ -13,6 +13,9 @@ type FetchShape struct {
 	// TruncateTail cuts the record set after this many bytes of the LAST returned batch
 	// (a partial trailing batch, as old fetch versions produce at the byte limit); 0 = keep whole.
 	TruncateTail int
+	// TruncateHead, when > 0, serves only the first this-many bytes of the FIRST returned batch and nothing after
+	// it (a record set cut inside its first batch, as brokers do when the byte limit is below one batch); 0 = off.
+	TruncateHead int
 	// IgnoreMaxBytes returns all batches regardless of the request's limits.
 	IgnoreMaxBytes bool
 }
@@ -31,6 +34,13 @@ func (c *Cluster) recordSet(p *Partition, off int64, maxBytes int) []byte {
 			continue
 		}
 		enc := b.Encode()
+		if c.shape.TruncateHead > 0 {
+			k := c.shape.TruncateHead
+			if k > len(enc) {
+				k = len(enc)
+			}
+			return append(out, enc[:k]...)
+		}
 		if !c.shape.IgnoreMaxBytes && n > 0 && maxBytes > 0 && len(out)+len(enc) > maxBytes {
 			// byte limit: old versions return a partial batch
 			if c.shape.TruncateTail > 0 {
